@@ -204,3 +204,46 @@ func b2i(b bool) int {
 	}
 	return 0
 }
+
+// MapIter replaces reflect.MapIter: iteration order is deterministic and chosen by the simulator.
+type MapIter struct {
+	m    reflect.Value
+	keys []reflect.Value
+	i    int
+}
+
+func orderReflectKeys(keys []reflect.Value) []reflect.Value {
+	if len(keys) < 2 {
+		return keys
+	}
+	sort.Slice(keys, func(i, j int) bool { return cmpAny(keys[i], keys[j]) < 0 })
+	s := cur
+	if s == nil || s.dead || s.current == nil {
+		return keys
+	}
+	r := s.Choose(len(keys))
+	if r > 0 {
+		out := make([]reflect.Value, 0, len(keys))
+		out = append(out, keys[r:]...)
+		out = append(out, keys[:r]...)
+		if s.Chance(1, 4) {
+			for i, j := 0, len(out)-1; i < j; i, j = i+1, j-1 {
+				out[i], out[j] = out[j], out[i]
+			}
+		}
+		return out
+	}
+	return keys
+}
+
+// ReflectMapRange replaces reflect.Value.MapRange.
+func ReflectMapRange(v reflect.Value) *MapIter {
+	return &MapIter{m: v, keys: orderReflectKeys(v.MapKeys()), i: -1}
+}
+
+// ReflectMapKeys replaces reflect.Value.MapKeys.
+func ReflectMapKeys(v reflect.Value) []reflect.Value { return orderReflectKeys(v.MapKeys()) }
+
+func (it *MapIter) Next() bool           { it.i++; return it.i < len(it.keys) }
+func (it *MapIter) Key() reflect.Value   { return it.keys[it.i] }
+func (it *MapIter) Value() reflect.Value { return it.m.MapIndex(it.keys[it.i]) }
